@@ -716,6 +716,84 @@ func (c *c13Ctx) constructor(ctor *ssa.Function, dsIdx int) {
 	okA, whyA := c13AnnotationStamp(r, ctor, rs, ds, stampVal, c.md5Key)
 	r.Check("C13.R2", "hash annotation from the same hash", pos, sf,
 		"the template-hash annotation of the new replica set is written, on every success path, with the same hash value that becomes Spec.TemplateGeneration", okA, whyA)
+
+	// nothing that can execute after the stamp rewrites the annotation (a copy of other annotations
+	// into the new object's map, or a replaced map, can carry a stale template hash over the fresh one)
+	okC, whyC := c13NoClobberAfterStamp(r, ctor, rs, c.md5Key)
+	r.Check("C13.R2", "hash annotation not overwritten after the stamp", pos, sf,
+		"no write that can execute after the hash stamp replaces the new replica set's annotation map or updates it under a key that may be the template-hash key", okC, whyC)
+}
+
+// c13NoClobberAfterStamp: see the obligation text. Stamps are map updates of obj.Annotations with the
+// constant hash key, inline or inside a repository callee that receives obj.
+func c13NoClobberAfterStamp(r *Run, fn *ssa.Function, obj ssa.Value, key string) (bool, string) {
+	isObjAnn := func(m ssa.Value) bool {
+		root, p := accessPath(m)
+		return root == obj && len(p) > 0 && p[len(p)-1] == "Annotations"
+	}
+	writesKey := func(f *ssa.Function) bool {
+		for g := range r.Prog.reachableFuncs(f) {
+			for _, b := range g.Blocks {
+				for _, in := range b.Instrs {
+					if mu, ok := in.(*ssa.MapUpdate); ok {
+						if s, isC := constString(mu.Key); isC && s == key {
+							return true
+						}
+					}
+				}
+			}
+		}
+		return false
+	}
+	var stamps, clobbers []ssa.Instruction
+	for _, b := range fn.Blocks {
+		for _, in := range b.Instrs {
+			switch x := in.(type) {
+			case *ssa.MapUpdate:
+				if !isObjAnn(x.Map) {
+					continue
+				}
+				if s, isC := constString(x.Key); isC {
+					if s == key {
+						stamps = append(stamps, in)
+					}
+					continue
+				}
+				clobbers = append(clobbers, in)
+			case *ssa.Store:
+				if _, isFA := x.Addr.(*ssa.FieldAddr); isFA && isObjAnn(x.Addr) {
+					clobbers = append(clobbers, in)
+				}
+			case *ssa.Call:
+				cal := staticCallee(&x.Call)
+				gets := false
+				for _, a := range x.Call.Args {
+					if root, _ := accessPath(a); root == obj || unwrap(a) == obj {
+						gets = true
+					}
+				}
+				if !gets {
+					continue
+				}
+				if cal != nil && r.Prog.IsRuleSite(cal) && writesKey(cal) {
+					stamps = append(stamps, in)
+				} else if cal != nil && cal.Name() == "SetAnnotations" {
+					clobbers = append(clobbers, in)
+				}
+			}
+		}
+	}
+	if len(stamps) == 0 {
+		return false, "no stamp of the hash annotation found in the constructor"
+	}
+	for _, s := range stamps {
+		for _, c := range clobbers {
+			if canExecuteAfter(s, c) {
+				return false, "the write at " + r.Prog.Pos(instrPos(c)) + " can execute after the hash stamp at " + r.Prog.Pos(instrPos(s))
+			}
+		}
+	}
+	return true, fmt.Sprintf("%d stamp(s), %d other annotation write(s), none after a stamp", len(stamps), len(clobbers))
 }
 
 // c13AnnotationStamp: the annotation key is written into obj.Annotations with value `stamp` — inline
